@@ -78,6 +78,34 @@ def main(pid):
                 recs.append({"seed": s, "hist": hi, "text": c["text"], "opt": c["opt"], "th": c["th"], "d": c["d"],
                              "dend": c["dend"], "same_input": c["same_input"], "base": vlib.sha(base[c["text"]][c["opt"]]) and
                              __import__("hashlib").sha1(base[c["text"]][c["opt"]].encode("utf8", "surrogatepass")).hexdigest()[:16]})
+    # deterministic schedules: two threads, one pre-emption at every k-th function-call event of an
+    # eyecite frame (harness/sched.py); (a) many k in one process, (b) each k in a FRESH process so that
+    # the two calls are the first calls of the process (lazy initialisation)
+    import hashlib
+    def bd(i, opt=0):
+        return hashlib.sha1(base[i][opt].encode("utf8", "surrogatepass")).hexdigest()[:16]
+    idx = {t: i for i, t in enumerate(corpus)}
+    pair_texts = (special + tie_texts)[:24]
+    pairs = [[pair_texts[i], pair_texts[(i + 5) % len(pair_texts)]] for i in range(len(pair_texts))]
+    ks_a = list(range(0, 330, 2 if thorough else 5))
+    jobs = [{"pairs": [p], "ks": ks_a} for p in pairs]
+    with ThreadPoolExecutor(vlib.NCPU) as ex:
+        futs = [ex.submit(vlib.impl_run, "sched", "run", j, env={"PYTHONHASHSEED": str(3 + n % 5)}) for n, j in enumerate(jobs)]
+        sres = [x for f in futs for x in f.result()]
+    fresh = [{"pairs": [pairs[n % len(pairs)]], "ks": [k]} for n, k in enumerate(range(0, 330, 4 if thorough else 11))]
+    fresh += [{"pairs": [list(reversed(pairs[(n + 3) % len(pairs)]))], "ks": [k]} for n, k in enumerate(range(0, 330, 6 if thorough else 17))]
+    with ThreadPoolExecutor(vlib.NCPU) as ex:
+        futs = [ex.submit(vlib.impl_run, "sched", "run", j, env={"PYTHONHASHSEED": str(n % 7)}) for n, j in enumerate(fresh)]
+        fres = [x for f in futs for x in f.result()]
+    nsched = 0
+    for kind, rs in (("sched", sres), ("fresh", fres)):
+        for x in rs:
+            nsched += 1
+            for t, d in ((x["a"], x["da"]), (x["b"], x["db"])):
+                recs.append({"seed": -1, "hist": -1, "text": idx[t], "opt": 0, "th": f"{kind}:k={x['k']}", "d": d, "dend": d,
+                             "same_input": True, "base": bd(idx[t])})
+    ev.cov["deterministic_schedules"] = nsched
+    ev.cov["yield_points_per_call"] = max((max(x["steps"]) for x in sres), default=0)
     fails, _ = tlc_judge("Trace_Purity", "Trace_Purity.cfg", recs, ev, "calls", chunk=50000)
     seen = set()
     for ix, cl in fails:
@@ -87,7 +115,7 @@ def main(pid):
             continue
         seen.add(key)
         vd.violation(cl, {"text": corpus[rc["text"]], "remove_ambiguous": bool(rc["opt"]), "seed": rc["seed"],
-                          "thread": rc["th"], "history": items[rc["hist"]]["hist"],
+                          "thread": rc["th"], "history": items[rc["hist"]]["hist"] if rc["hist"] >= 0 else rc["th"],
                           "baseline_seed0": base[rc["text"]][rc["opt"]][:1500]},
                      {"clause": cl, "tie_text": corpus[rc["text"]] in tie_texts})
     ev.sample({"history": hists[len(hists) // 2], "texts_with_unmerged_ties": tie_texts[:6]})
